@@ -9,6 +9,9 @@ import (
 	"runtime"
 	"sort"
 	"strconv"
+	"sync"
+	"sync/atomic"
+	"time"
 )
 
 // Violation is one oracle failure.  Class is a stable string that names WHAT
@@ -279,12 +282,73 @@ func (r *Run) Sched() {
 			pick.started = true
 			go r.runTask(pick)
 		}
+		atomic.AddInt64(&schedProgress, 1)
+		atomic.StoreInt32(&schedWaiting, 1)
 		pick.wake <- struct{}{}
 		<-r.back
+		atomic.StoreInt32(&schedWaiting, 0)
 		r.cur = nil
+		if atomic.LoadInt32(&schedStuck) != 0 {
+			// The task neither yielded nor finished for seconds of real time: it
+			// waits for something only a PARKED task can give it (a real lock held
+			// across a yield point, a channel).  A cooperative scheduler cannot run
+			// such code; the run is abandoned (not judged), the goroutines are left
+			// behind, and the caller must not start another run in this process.
+			atomic.StoreInt32(&schedStuck, 0)
+			r.aborted = true
+			r.tasks = nil
+			r.lastRan = nil
+			panic(RunAbandoned{Task: pick.Name})
+		}
 	}
 	r.tasks = nil
 	r.lastRan = nil
+}
+
+// RunAbandoned is the panic value with which Sched gives up a run whose
+// picked task blocked outside the simulator's control.
+type RunAbandoned struct{ Task string }
+
+var (
+	schedProgress int64
+	schedWaiting  int32
+	schedStuck    int32
+	watchdogOnce  sync.Once
+)
+
+// StartWatchdog starts (once per process) a goroutine that notices when the
+// scheduler has been waiting for one task for longer than limit without any
+// progress, and makes Sched abandon the run.  Its pending timer also keeps the
+// Go runtime from ending the process with "all goroutines are asleep".
+func StartWatchdog(limit time.Duration) {
+	watchdogOnce.Do(func() {
+		go func() {
+			last := int64(-1)
+			var since time.Time
+			for {
+				time.Sleep(250 * time.Millisecond)
+				p := atomic.LoadInt64(&schedProgress)
+				if atomic.LoadInt32(&schedWaiting) == 0 || p != last {
+					last, since = p, time.Now()
+					continue
+				}
+				if time.Since(since) < limit {
+					continue
+				}
+				r := current
+				if r == nil {
+					continue
+				}
+				atomic.StoreInt32(&schedStuck, 1)
+				select {
+				case r.back <- struct{}{}:
+				default:
+					atomic.StoreInt32(&schedStuck, 0)
+				}
+				last, since = -1, time.Now()
+			}
+		}()
+	})
 }
 
 // Abort makes every parked task unwind the next time it is resumed; Sched
@@ -402,4 +466,54 @@ func shortStack() string {
 	b := make([]byte, 6000)
 	n := runtime.Stack(b, false)
 	return string(b[:n])
+}
+
+// ---------------------------------------------------------------------------
+// locks of the code under test (instrumented variant)
+
+// Lock acquires a mutex of the code under test through its TryLock method,
+// yielding to the scheduler between attempts: a task never blocks for real on
+// a lock that a parked task holds.
+func Lock(try func() bool) {
+	r := current
+	for i := 0; !try(); i++ {
+		if r == nil || r.cur == nil {
+			// no simulated task context (package initialisation, a finalizer):
+			// nothing can be scheduled, spin politely
+			runtime.Gosched()
+			continue
+		}
+		r.Tick()
+		r.Stats["lock_waits"]++
+		r.Yield("lock")
+	}
+}
+
+type onceState struct{ running, done bool }
+
+var onceStates = map[*sync.Once]*onceState{}
+
+// OnceDo stands in for (*sync.Once).Do: f runs once; a task that arrives while
+// another task is inside f yields until f has returned.
+func OnceDo(o *sync.Once, f func()) {
+	st := onceStates[o]
+	if st == nil {
+		st = &onceState{}
+		onceStates[o] = st
+	}
+	r := current
+	for st.running {
+		if r == nil || r.cur == nil {
+			runtime.Gosched()
+			continue
+		}
+		r.Tick()
+		r.Yield("once")
+	}
+	if st.done {
+		return
+	}
+	st.running = true
+	defer func() { st.running, st.done = false, true }()
+	f()
 }
